@@ -185,7 +185,7 @@ class C10(BaseCheck):
                 ctor['cols'][c].append(['c%d' % j, gen_value(r, p_v3 / 2)])
         kinds = ['meta_set', 'meta_append', 'meta_extend', 'meta_add_item', 'meta_update', 'meta_setdefault',
                  'col_meta_set', 'col_meta_append', 'col_meta_extend', 'col_assign',
-                 'append', 'insert', 'extend', 'iadd', 'setitem', 'row_poke', 'col_poke', 'derive', 'extend_grid']
+                 'append', 'insert', 'extend', 'iadd', 'setitem', 'row_poke', 'col_poke', 'derive', 'extend_grid', 'add_column']
         enabled = [x for x in kinds if k.random() < 0.7] or ['append']
         n = k.choice([2, 3, 4, 6, 8, 12]) if tier == 'quick' else k.choice([3, 6, 12, 20, 30])
         ops = []
@@ -209,7 +209,12 @@ class C10(BaseCheck):
                     o['v'] = gen_value(r, p_v3)
             elif op in ('append', 'insert', 'setitem'):
                 o['row'] = {c: gen_value(r, p_v3 / 2) for c in COLS if r.random() < 0.9}
+                if r.random() < 0.25:
+                    o['row']['x'] = gen_value(r, p_v3)       # a key that is not (yet) a declared column
                 o['i'] = r.randrange(3)
+            elif op == 'add_column':
+                o['c'] = 'x'
+                o['pairs'] = [['c0', gen_value(r, p_v3 / 2)]] if r.random() < 0.3 else []
             elif op in ('extend', 'iadd'):
                 o['rows'] = [{c: gen_value(r, p_v3 / 3) for c in COLS} for _ in range(r.choice([1, 2, 3, 3, 12, 40]))]
             elif op == 'row_poke':
@@ -336,7 +341,7 @@ class C10(BaseCheck):
             specs = []
             if 'v' in o:
                 specs.append(o['v'])
-            if op == 'col_assign':
+            if op in ('col_assign', 'add_column'):
                 specs.extend(dict((k, s) for k, s in o['pairs']).values())   # a dict literal: last value per key wins
             else:
                 for p in o.get('pairs', []):
@@ -401,6 +406,9 @@ class C10(BaseCheck):
                     g.extend([{c: mkv(hs, s) for c, s in rw.items()} for rw in o['rows']])
                 elif op == 'iadd':
                     g += [{c: mkv(hs, s) for c, s in rw.items()} for rw in o['rows']]
+                elif op == 'add_column':
+                    # a column declared after rows already carry values under that key
+                    g.column[o['c']] = {k_: mkv(hs, s_) for k_, s_ in o['pairs']}
                 elif op == 'col_poke':
                     # in-place edit of a plain dict previously assigned as column metadata: like a row
                     # poke, the grid cannot see it, so only the writers are judged afterwards
